@@ -52,6 +52,12 @@ CHECKS = {
         text="The five TRNG-mixer functions are replaced by a tape reader so that every 32/64-bit value the masked code draws is chosen by the simulator (this reaches the x86-64 assembly word backend too). Seeded histories over pools of masked words, states and keys (load/load_partial/load_32/store/store_partial/zero/xor/replace/randomize/from_xN/pad/separator; xN_permute for every starting round with preserved or fresh randomness; copy_from/to_x1 and share-count conversions; key init/extract/randomize; the three masked AEADs incl. tampered inputs) are compared, through public observers only, with the unmasked computation by the library itself. Re-randomisation must preserve the value and (random tape, distinct non-zero words) change every share. Quick: 5 configurations; thorough: all 27 share combinations on asm, c64 and c32.",
         note="Trusted: the library's unmasked permutation/AEAD as reference; tape reader; value semantics of load_partial/replace/pad as documented in ascon-masked-word.h.",
         design="§3 W7, §4 C10"),
+    "C06": dict(
+        technique="deterministic simulation: histories on ISAP pre-computed keys (packets, save, restart from the saved image into clean or dirty memory, free) with KAT-validated reference models of ISAP v2.0 and the SIV construction as oracle",
+        category="exploration",
+        text="History part (the simulation target): up to 3 interleaved pre-computed ISAP keys go through seeded sequences of encrypt/decrypt packets (incl. tampered), save to a byte image (the only durable state), restart (object discarded, reloaded from the image, possibly elsewhere and into dirty memory) and free; the raw key object must be bit-identical before and after every encrypt/decrypt/save, save(load(s)) == s, and every later packet must equal what the original key produces. Specification part: every ISAP and SIV output is compared with reference models written over the library's public permutation API and self-tested against the repository's KAT files at start-up; equal SIV inputs give equal outputs. The specification part is model-based input sampling and is labelled so.",
+        note="Trusted: the two reference models (fail => exit 2, never a VIOLATION); the repository's KAT files; the library permutation (C08 is not claimed).",
+        design="§3 W8, §4 C06"),
     "C07": dict(
         technique="deterministic simulation: seeded interleaved object histories (chunking, copy, re-init, free, dirty-memory reuse) checked against the library's own single-call form",
         category="exploration",
